@@ -181,11 +181,23 @@ fn free_port() -> u16 {
 
 impl Cluster {
     fn new(root: &Path, count: u32, rf: u8) -> Cluster {
-        let mut ports = HashSet::new();
-        while ports.len() < 2 * count as usize {
-            ports.insert(free_port());
+        // Ports come from a range private to this worker process, outside the kernel's ephemeral
+        // range: with ports taken from bind(:0), a port freed by a killed node can be handed to a
+        // node of another worker's cluster while the first one is down - the restarted node then
+        // fails to listen, its peers dial the foreign node, and two clusters merge (a write was
+        // then "acknowledged by a quorum" that included a node of the other cluster: the one
+        // alarm this check ever raised on the unchanged tree)
+        static ROUND: std::sync::atomic::AtomicU32 = std::sync::atomic::AtomicU32::new(0);
+        let round = ROUND.fetch_add(1, std::sync::atomic::Ordering::Relaxed);
+        let base = 10_000u32 + (std::process::id() % 1000) * 20 + (round % 3) * 6;
+        let mut ports: Vec<u16> = Vec::new();
+        for k in 0..(2 * count) {
+            let p = (base + k) as u16;
+            // if something else holds the port the node will fail to start and the case is inconclusive
+            ports.push(p);
         }
-        let ports: Vec<u16> = ports.into_iter().collect();
+        let _ = free_port;
+        let _: HashSet<u16> = HashSet::new();
         let nodes = (0..count as usize)
             .map(|i| {
                 let dir = root.join(format!("node{i}"));
@@ -536,6 +548,7 @@ impl Check for Multi {
             out.set_sample(json!({"inconclusive": why, "log": log}));
             return out;
         }
+        let starts: Vec<u32> = cluster.lock().unwrap().nodes.iter().map(|n| n.starts).collect();
         // offline dumps
         let mut disks: Vec<BTreeMap<u16, BTreeMap<u64, DiskEvent>>> = Vec::new();
         for i in 0..count {
@@ -608,7 +621,19 @@ impl Check for Multi {
                     }
                 }
             }
-            let describe = || format!("write {} via node {} ({} events, partition {}, sent at {} ms, acknowledged '{}' at {} ms)", w.label, w.via, w.ids.len(), w.partition, w.started_ms, w.outcome, w.finished_ms);
+            // what every node holds around the acknowledged sequence (so that a report is self-contained)
+            let per_node: Vec<String> = disks
+                .iter()
+                .enumerate()
+                .map(|(i, d)| match d.get(&w.partition) {
+                    None => format!("node {i}: partition not dumped (starts {})", starts[i]),
+                    Some(l) => {
+                        let at = l.get(&first).map(|e| format!("event {} tx {} count {}", e.event_id, e.tx, e.count)).unwrap_or_else(|| "nothing".into());
+                        format!("node {i}: {} events, last sequence {:?}, at {first}: {at}, process starts {}", l.len(), l.keys().next_back(), starts[i])
+                    }
+                })
+                .collect();
+            let describe = || format!("write {} via node {} ({} events, ids {:?}, partition {}, sent at {} ms, acknowledged '{}' at {} ms; faults {:?}; {})", w.label, w.via, w.ids.len(), w.ids, w.partition, w.started_ms, w.outcome, w.finished_ms, fault_windows, per_node.join(" | "));
             if let Some((i, tx)) = replaced_by {
                 if c11_reported.insert("replaced") {
                     fails.push(("C11", format!("acked-write-replaced/{fault_class}"), format!("{}: node {i} holds the different quorum-confirmed transaction {tx} at sequence {first}; holders of the acknowledged events: {holders:?}", describe())));
